@@ -42,12 +42,21 @@ From PyDcop Require Import M_Orch P_Orch P_Orch2 M_OrchDpop P_OrchDpop.
 
 (* [en] = what the orchestrator's Discovery holds when the message is handled (an input of the
    step); [ended tr n] = some end_of_computation for n occurs in tr. *)
+(* Second disjunct: since /repo fix "late agent" an agent that registers after the stop order
+   ([stop_ordered c tr]: a stop request or the completing end_of_computation occurs in tr) is
+   told to stop at once; before the fix it never was and the run hung until the timeout. *)
 Theorem orch_finishes_iff_all_ended : forall c tr e en a,
   e <> EStopReq ->
   (In (OStop a) (snd (step c (run c tr) en e)) <->
-   In a (e_agents en) /\
-   exists ag x, e = EEnd ag x /\ forall n, In n (g_nodes c) -> ended (tr ++ [(e, en)]) n).
+   (In a (e_agents en) /\
+    exists ag x, e = EEnd ag x /\ forall n, In n (g_nodes c) -> ended (tr ++ [(e, en)]) n)
+   \/ (e = EAgentAdded a /\ stop_ordered c tr)).
 Proof. exact orch_finishes_iff_all_ended_l. Qed.
+
+(* the flag behind it: _stop_requested is set exactly when the stop order has been given *)
+Theorem orch_stop_requested_iff : forall c tr,
+  m_stop_requested (run c tr) = true <-> stop_ordered c tr.
+Proof. exact flag_stop_ordered. Qed.
 
 Theorem orch_reports_last_values : forall c tr x,
   slookup x (reported_assignment (run c tr)) = last_value x tr.
@@ -163,14 +172,16 @@ Theorem orch_thread_mode_transport : forall P L evs tr,
 Proof. exact fifo_delivered. Qed.
 
 (* SAFETY -- every dcop, every schedule of the computations, every moment, every trace allowed by
-   the transport assumption: if AgentsMgt orders the agents to stop while handling anything but
-   a stop request (timeout / external stop), every DPOP computation has finished and the value
-   table already holds the value each of them selected *)
+   the transport assumption: if AgentsMgt sends a stop order (to the registered agents on the
+   completing end, or to a late-registering agent afterwards) and no stop request (timeout /
+   external stop) has occurred, every DPOP computation has finished and the value table already
+   holds the value each of them selected *)
 Theorem orch_dpop_stop_sound : forall P L c sched tr e en ag,
   link_ok P L c ->
   let r := Net.run (dpop_proto P) sched in
   transport P L (snd r) (tr ++ [(e, en)]) ->
-  e <> EStopReq -> In (OStop ag) (snd (step c (run c tr) en e)) ->
+  (forall en', ~ In (EStopReq, en') (tr ++ [(e, en)])) ->
+  In (OStop ag) (snd (step c (run c tr) en e)) ->
   forall x, In x (tree_ids P) ->
     s_fin (w_st (nodes (fst r) x)) = true /\
     slookup (lk_name L x) (reported_assignment (run c tr)) = Some (chosen (fst r) x).
@@ -179,14 +190,15 @@ Proof. exact stop_sound. Qed.
 (* TERMINATION by end of computations -- valid tree, non-empty problem: once the computations
    are quiescent (complete) and their management messages are handled, the trace contains an
    end_of_computation on which the stop order went to every registered agent, and no earlier
-   step (other than a stop request) sent one *)
+   step sent one unless a stop request had occurred *)
 Theorem orch_dpop_stop_happens : forall P L c sched tr,
   dpop_valid P -> link_ok P L c -> tree_ids P <> [] ->
   let r := Net.run (dpop_proto P) sched in
   complete P (fst r) -> delivered P L (snd r) tr ->
   exists tr1 a x en tr2, tr = tr1 ++ (EEnd a x, en) :: tr2 /\
     (forall ag, In (OStop ag) (snd (step c (run c tr1) en (EEnd a x))) <-> In ag (e_agents en)) /\
-    (forall p e' en' s ag, tr1 = p ++ (e', en') :: s -> e' <> EStopReq ->
+    (forall p e' en' s ag, tr1 = p ++ (e', en') :: s ->
+        (forall en'', ~ In (EStopReq, en'') (p ++ [(e', en')])) ->
         ~ In (OStop ag) (snd (step c (run c p) en' e'))).
 Proof. exact stop_happens. Qed.
 
@@ -223,7 +235,8 @@ Theorem orch_dpop_stop_result : forall P L c inf sched tr e en ag,
   dpop_check P = true -> cons_shaped P = true -> link_ok P L c ->
   let r := Net.run (dpop_proto P) sched in
   transport P L (snd r) (tr ++ [(e, en)]) ->
-  e <> EStopReq -> In (OStop ag) (snd (step c (run c tr) en e)) ->
+  (forall en', ~ In (EStopReq, en') (tr ++ [(e, en)])) ->
+  In (OStop ag) (snd (step c (run c tr) en e)) ->
   let m := run c tr in
   let sg := P_Dpop2.assignment P (fst r) in
   (forall x, In x (tree_ids P) ->
